@@ -26,7 +26,9 @@ fn fwd(op: &Op, _ctx: &dyn Context, operands: &mut dyn CoordinateSet) -> usize {
 
     for i in 0..length {
         let (mut lam, phi) = operands.xy(i);
-        lam -= lon_0;
+        // The longitude difference must be within ±180°, also across the antimeridian:
+        // multiplied by the cone constant it is not periodic any more
+        lam = angular::normalize_symmetric(lam - lon_0);
         let mut rho = 0.;
 
         // Close to one of the poles?
